@@ -58,7 +58,23 @@ git -C /repo worktree remove --force $wt; rm -rf $wt
 # checks on /repo itself
 results="{"
 sep=""
-if [ $applies = yes ] && git -C /repo diff --quiet && git -C /repo apply $sd/patch.diff; then
+if [ "${SEED_CLONE:-0}" = 1 ] && [ $applies = yes ]; then
+  # parallel mode: the checks run against a private copy of /repo's working tree with the patch applied
+  # (govc -repo <copy>); /repo itself is not touched, so several seeds can be checked at the same time
+  cl=/tmp/seedrepo_$seed; rm -rf $cl; mkdir -p $cl; rsync -a --exclude .git /repo/ $cl/
+  if (cd $cl && git init -q && git apply $sd/patch.diff); then
+    for p in "${props[@]}"; do
+      out=$(cd /verif && /verif/bin/govc -repo $cl -prop $p -tier quick -work /tmp/seedwork_$seed -evidence /tmp/seedcheck_evidence_$seed -verif /verif 2>&1); rc=$?
+      viol=$(echo "$out" | grep -c "^VIOLATION")
+      first=$(echo "$out" | grep "^VIOLATION" | head -3 | sed -E 's/.*obligation=//; s/ no-failing-input-found//' | tr '\n' ';' | sed 's/"/\\"/g')
+      results="$results$sep\"$p\": {\"exit\": $rc, \"violations\": $viol, \"obligations\": \"$first\"}"
+      sep=", "
+    done
+  else
+    results="$results\"error\": \"patch not applied to the copy\""
+  fi
+  rm -rf $cl /tmp/seedwork_$seed /tmp/seedcheck_evidence_$seed
+elif [ $applies = yes ] && git -C /repo diff --quiet && git -C /repo apply $sd/patch.diff; then
   for p in "${props[@]}"; do
     # same command as ./check.sh <p> quick, but the evidence of a run on a changed tree must not
     # replace the committed evidence of the unchanged tree
